@@ -277,7 +277,8 @@ func streamC06(h *H) {
 	var base []byte
 	var baseBlobs pack.Blobs
 	var baseHdr uint32
-	for i := 0; i < nmut; i++ {
+	baseBroken := false
+	for i := 0; i < nmut && !baseBroken; i++ {
 		if i%40 == 0 {
 			nb := 1 + h.Intn(5)
 			if h.Intn(6) == 0 {
@@ -291,13 +292,17 @@ func streamC06(h *H) {
 			}
 			f, _, ferr, pn := c06Pack(h, k, bl, false)
 			if ferr != nil || pn {
-				panic("C06 harness: base pack failed")
+				// the packer itself is broken (already reported by the rt sub-stream): no genuine
+				// pack to mutate, go on with the other sub-streams
+				baseBroken = true
+				break
 			}
 			base = f
 			var err error
 			baseBlobs, baseHdr, err = pack.List(k, bytes.NewReader(base), int64(len(base)))
 			if err != nil {
-				panic(err)
+				baseBroken = true
+				break
 			}
 		}
 		file := append([]byte(nil), base...)
